@@ -8,6 +8,15 @@ VERIF = os.path.dirname(os.path.dirname(os.path.abspath(__file__)))
 
 # property -> (technique, clause decided, trusted base / what is not decided, DESIGN ref)
 CLAIMS = {
+    "C33": ("non-null dataflow with a nullable-producer table (reader + tools' ABIXML read paths), size-fact dataflow "
+            "for constant subscripts, assertion classification by a one-step input slice with dominating-check "
+            "recognition",
+            "in the ABIXML reader and the tools that call it: nullable results are checked before every dereference, "
+            "constant subscripts are size-guarded, and every assertion / abort that depends on document content "
+            "without a dominating check is either absent or a recorded, replayed finding (25 today)",
+            "general memory safety beyond these three fault classes; nine assertion sites are listed as undecided "
+            "(sa/tables/c33_tables.json)",
+            "§3 R-NULLABLE, R-IDX, R-INASSERT; §4 C33"),
     "C24": ("non-null dataflow over the CFG at every regex::match call (with container invariants) + must-pass-through "
             "gate rule in the suppression parser + vocabulary table (property names vs validator suffix)",
             "no null compiled regex reaches regex::match; every section reader is dominated by the validator that "
